@@ -1,4 +1,6 @@
 // Handlers for the spline family (Spline.h): C02, C03, C08, C10, C11, C14, C15.
+#include <algorithm>
+
 #include "vh_common.h"
 
 namespace verif {
@@ -45,6 +47,12 @@ void splEval(const json &in, json &out) {
       json vals = json::array();
       for (const auto &jx : in.at("xs")) vals.push_back(Codec<T>::enc(p(Codec<T>::dec(jx))));
       out["vals"] = vals;
+      // second pass in the opposite order on the same object: evaluation must not depend on what was evaluated before
+      json vals2 = json::array();
+      const json &xs = in.at("xs");
+      for (size_t i = xs.size(); i-- > 0;) vals2.push_back(Codec<T>::enc(p(Codec<T>::dec(xs[i]))));
+      std::reverse(vals2.begin(), vals2.end());
+      out["vals2"] = vals2;
       T v{};
       if (guarded(out, "front", [&] { v = p.front(); })) out["front_v"] = Codec<T>::enc(v);
       if (guarded(out, "back", [&] { v = p.back(); })) out["back_v"] = Codec<T>::enc(v);
